@@ -23,6 +23,7 @@ func init() {
 		Explanation: "Decides for every Go program the table-shaped necessary conditions of 'Go code keeps its meaning': " +
 			"(1) every statement/expression/type node kind that exists in both go/ast and xgo/ast (the Go subset of the tree; derived, not listed) has a case in the dispatcher that lowers it — cl.compileStmt for statements, cl.compileExpr for expressions, cl.toType for type expressions, cl.compileExprLHS for the assignable forms (identifier, index, selector, dereference, and parentheses around them) — or is consumed by a parent handler through a type assertion/switch that the rule locates; a missing case is `compile… failed: unknown` for a valid Go program; " +
 			"(2) cl lowers operators and literal kinds by converting the xgo token to a go/token value (gotoken.Token(v.Op)); every constant name of go/token that xgo/token shares has the same numeric value, so the conversion is the identity on Go's operators; every conversion site is listed; " +
+			"(3a) operand coverage: an optional operand of a node (v.Key, v.Init, v.Else, v.Tag, … — every syntax-node-typed field) that a lowering routine hands to another lowering routine on some path is, on every path to a normal (non-error) exit of that routine, either mentioned or known to be nil through a nil test on that path (path-sensitive over go/cfg; reviewed exceptions in opCoverReviewed) — a path that may carry the operand and never lowers it drops that part of the program silently (`for k = range m` compiled as `for range m`); " +
 			"(3) the routines that lower a node with several operands compile the operands in Go's evaluation order (X before Y, X before Index, X Low High Max, Init Cond Body Else, …) — swapping two of them swaps the operands of a non-commutative operator or the order of side effects.",
 		NotCovered: "everything a handler does beyond dispatch and operand order (the lowering itself happens in gogen), scoping/type inference differences, and XGo's documented deviations (println, string interpolation, auto-capitalised members), which the property excludes.",
 		Run:        runC01,
@@ -36,6 +37,8 @@ func init() {
 			{Name: "comma-ok-leaks-to-operand", File: e, Old: "\tcompileExpr(ctx, v.X, xFlags...)\n", New: "\tcompileExpr(ctx, v.X, inFlags...)\n", Expect: "two-value-scope/compileIndexExpr"},
 			{Name: "types-resolved-package-first", File: "cl/func_type_and_var.go", Old: "\tat, o := ctx.cb.Scope().LookupParent(name, token.NoPos)\n\tif o != nil && at != types.Universe {\n\t\tif debugLookup {\n\t\t\tlog.Println(\"==> LookupParent\", name, \"=>\", o)\n\t\t}\n\t\treturn o, nil\n\t}\n\tif ctx.loadSymbol(name) {", New: "\tif ctx.loadSymbol(name) {\n\t\tif v := ctx.pkg.Types.Scope().Lookup(name); v != nil {\n\t\t\treturn v, nil\n\t\t}\n\t}\n\tat, o := ctx.cb.Scope().LookupParent(name, token.NoPos)\n\tif o != nil && at != types.Universe {\n\t\tif debugLookup {\n\t\t\tlog.Println(\"==> LookupParent\", name, \"=>\", o)\n\t\t}\n\t\treturn o, nil\n\t}\n\tif ctx.loadSymbol(name) {", Expect: "resolution-order/lookupType"},
 			{Name: "dup-case-bools", File: "cl/stmt.go", Old: "\tswitch val.Kind() {\n\tcase constant.Int:\n\t\tif x, ok := constant.Int64Val(val); ok {", New: "\tswitch val.Kind() {\n\tcase constant.Bool:\n\t\treturn constant.BoolVal(val)\n\tcase constant.Int:\n\t\tif x, ok := constant.Int64Val(val); ok {", Expect: "sibling/goVal"},
+			{Name: "range-key-only-dropped", File: "cl/stmt.go", Old: "\t\t} else {\n\t\t\tcompileExprLHS(ctx, v.Key)\n\t\t\tn++\n\t\t}\n", New: "\t\t} else if v.Value != nil {\n\t\t\tcompileExprLHS(ctx, v.Key)\n\t\t\tn++\n\t\t}\n", Expect: "operand-coverage/compileRangeStmt.Key"},
+			{Name: "if-else-only-with-init", File: "cl/stmt.go", Old: "\tif e := v.Else; e != nil {\n\t\tcb.Else(e)", New: "\tif e := v.Else; e != nil && v.Init != nil {\n\t\tcb.Else(e)", Expect: "operand-coverage/compileIfStmt.Else"},
 			{Name: "token-renumbered", File: "token/token.go", Old: "\tADD // +\n\tSUB // -\n", New: "\tSUB // -\n\tADD // +\n", Expect: "token-value/ADD"},
 		},
 	})
@@ -272,6 +275,12 @@ func runC01(c *core.Check) {
 		c.Decide(ok, "operand-order", fn, fd.Pos(), strings.Join(want, " → "), "cl."+fn+": "+detail+" — the operands of a non-commutative operation (or the order of their side effects) are swapped")
 	}
 	c.Floor("operand-order", 7)
+
+	// ---------- (3a) operand coverage: an optional operand lowered on one path is lowered or nil on every path
+	nR, nO := opCoverRule(c, pk, "operand-coverage", "compile", "load", "to")
+	c.Analysed("operand_coverage_routines", nR)
+	c.Analysed("operand_coverage_operands", nO)
+	c.Floor("operand-coverage", 55)
 
 	// ---------- (3b) name resolution: the scope chain is consulted before the package-level symbol loaders
 	// (Go: the innermost declaration wins; a function-local type or variable shadows a package-level one)
